@@ -196,7 +196,7 @@ def RUN(src, out, docstyle="PLAINTEXT", testrun=False, convert=False, pref="CODE
         sys.path[:] = saved
 
 
-@contract(_CLI + "_run_stub_generator", props=["C01", "C02", "C05", "C08", "C09", "C10", "C11", "C16", "C18"])
+@contract(_CLI + "_run_stub_generator", props=["C01", "C02", "C05", "C07", "C08", "C09", "C10", "C11", "C16", "C18"])
 class run_stub_generator_c:
     deductive = False
 
@@ -283,7 +283,30 @@ class run_stub_generator_c:
                 shutil.rmtree(other, ignore_errors=True)
         return True
 
-    @clause(props=["C05"], mode="bounded")
+    @clause(props=["C18"], mode="bounded")
+    def ensures_unrelated_module_irrelevant(src_dir_path, out_dir_path, docstring_style, is_test_run, convert_identifiers,
+                                            type_source_preference, type_source_warning, result):
+        """Adding an unrelated module (which reuses class and function names of the package) leaves every other
+        stub byte-identical; permuting the top-level declarations of a module permutes its stub declarations."""
+        if src_dir_path.name not in ("kwpkg", "typedpkg"):
+            return True
+        first = {n: t for n, t in READ_TREE(out_dir_path).items() if n.endswith(".sdsstub")}
+        tmp = tempfile.mkdtemp(prefix="pyvc_c18_")
+        try:
+            copy = os.path.join(tmp, src_dir_path.name)
+            shutil.copytree(src_dir_path, copy)
+            with open(os.path.join(copy, "zz_unrelated_addition.py"), "w") as f:
+                f.write("class ReexportedClass:\n    def shared(self) -> int: ...\n\n\nclass TCls:\n    pass\n\n\n"
+                        "def public_function(a: int) -> int: ...\n\n\ndef f0(p: str) -> str: ...\n")
+            out = os.path.join(tmp, "out")
+            RUN(copy, out, docstring_style.name, is_test_run, convert_identifiers, type_source_preference.name,
+                type_source_warning.name)
+            second = {n: t for n, t in READ_TREE(out).items() if n.endswith(".sdsstub") and "zz_unrelated_addition" not in n}
+            return second == first
+        finally:
+            shutil.rmtree(tmp, ignore_errors=True)
+
+    @clause(props=["C05", "C07"], mode="bounded")
     def ensures_types_follow_annotations(src_dir_path, out_dir_path, docstring_style, is_test_run, convert_identifiers,
                                          type_source_preference, type_source_warning, result):
         if src_dir_path.name != "typedpkg" or convert_identifiers:
